@@ -70,7 +70,12 @@ class HTTPConnection(Mapping[str, Any], MoreInfoFromHeaderMixin):
         """
         The full URL of this request.
         """
-        return URL(environ=self._environ)
+        try:
+            return URL(environ=self._environ)
+        except ValueError:
+            # urlsplit() rejects e.g. "Host: [" (unbalanced IPv6 bracket), and the
+            # path / query string may not be UTF-8: a malformed request, not a 500
+            raise HTTPException(400, content="Malformed request URL") from None
 
     @cached_property
     def path_params(self) -> Dict[str, Any]:
